@@ -112,8 +112,9 @@ class AddressType(StringType, prim='address'):
 
     @classmethod
     def from_value(cls, value: str) -> 'AddressType':
-        if value.endswith('%default'):
-            value = value.split('%')[0]
+        address, _, entrypoint = value.partition('%')
+        if entrypoint == 'default':
+            value = address
         assert is_address(value), f'expected tz/KT/sr address, got {value}'
         return cls(value)
 
@@ -162,8 +163,9 @@ class TXRAddress(StringType, prim='tx_rollup_l2_address'):
 
     @classmethod
     def from_value(cls, value: str) -> 'TXRAddress':
-        if value.endswith('%default'):
-            value = value.split('%')[0]
+        address, _, entrypoint = value.partition('%')
+        if entrypoint == 'default':
+            value = address
         assert is_txr_address(value), f'expected txr1 address, got {value}'
         return cls(value)
 
@@ -408,8 +410,8 @@ class ContractType(AddressType, prim='contract', args_len=1):
         return self.value.split('%')[0]
 
     def get_entrypoint(self) -> str:
-        res = self.value.split('%')
-        return res[1] if len(res) == 2 else 'default'
+        _, _, entrypoint = self.value.partition('%')
+        return entrypoint or 'default'
 
     def to_python_object(self, try_unpack=False, lazy_diff=False, comparable=False):
         assert not comparable, f'{self.prim} is not comparable'
